@@ -350,6 +350,20 @@ func (im *Impl) Exec(line string) (out string) {
 		return im.rbPromote()
 	case "rbend":
 		return im.rbEnd()
+	case "clone":
+		return im.clone(w[1])
+	case "recs":
+		r := im.rep()
+		if r == nil {
+			return "recs closed"
+		}
+		act := r.VerifActive()
+		disks := r.ListDisks()
+		var out []string
+		for _, n := range act[:len(act)-1] {
+			out = append(out, fmt.Sprint(disks[n].RevisionCounter))
+		}
+		return "recs " + strings.Join(out, ",")
 	case "holes":
 		set := map[[2]int]bool{}
 		for _, h := range im.Pending() {
